@@ -18,12 +18,13 @@ def act_block(X, D, key, g):
     return np.stack([act_np(a, D, key[1], g) for a in X])
 
 
-def one(D, sin, sout, opt, g, use_bias, shift=None):
+def one(D, sin, sout, opt, g, use_bias, shift=None, equal_channels=False):
+    """the layer always goes through eqx.tree_at (a pytree flatten / unflatten, as in jit / training / load) before the call"""
     sin, sout = keys(sin), keys(sout)
     g = np.asarray(g)
     fb = bank(D)
-    ci = {k: 1 + i for i, k in enumerate(sin)}
-    co = {k: 2 + (i % 2) for i, k in enumerate(sout)}
+    ci = {k: 2 if equal_channels else 1 + i for i, k in enumerate(sin)}
+    co = {k: 3 if equal_channels else 2 + (i % 2) for i, k in enumerate(sout)}
     isig = geom.Signature(tuple((k, ci[k]) for k in sin))
     osig = geom.Signature(tuple((k, co[k]) for k in sout))
     rd = opt["rdil"]
@@ -35,7 +36,7 @@ def one(D, sin, sout, opt, g, use_bias, shift=None):
     rng = np.random.default_rng(11)
     layer = eqx.tree_at(lambda l: l.bias, layer, {k: jnp.array(rng.normal(size=v.shape).astype(np.float32) + 1.5) for k, v in layer.bias.items()})
     X = {k: rng.integers(-2, 3, size=(ci[k],) + tuple(shape) + (D,) * k[0]).astype(np.float64) for k in sin}
-    call = f"ConvContract equivariance D={D} in={sin} out={sout} opt={opt} use_bias={use_bias} g={g.tolist()} shift={shift}"
+    call = f"ConvContract equivariance D={D} in={sin} out={sout} opt={opt} use_bias={use_bias} g={g.tolist()} shift={shift} equal_channels={equal_channels}"
     y0 = layer(make_mi(X, sin, D, flags))
     if shift is not None:
         Xs = {k: np.roll(v, shift, axis=tuple(range(1, 1 + D))) for k, v in X.items()}
@@ -57,7 +58,9 @@ def one(D, sin, sout, opt, g, use_bias, shift=None):
 
 
 def replay(req):
-    d, call = one(req["D"], req["sin"], req["sout"], req["opt"], req["g"], req.get("use_bias", False))
+    d, call = one(req["D"], req["sin"], req["sout"], req["opt"], req["g"], req.get("use_bias", False), equal_channels=bool(req.get("equal_channels")))
+    if d is None and req.get("equal_channels") is None:
+        d, call = one(req["D"], req["sin"], req["sout"], req["opt"], req["g"], req.get("use_bias", False), equal_channels=True)
     return {"ok": True, "confirmed": d is not None, "detail": d, "call": call}
 
 
@@ -81,6 +84,16 @@ def standin(req):
                         fails.append({"name": call, "detail": d, "request": dict(scenario="layer", D=D, sin=si, sout=so, opt=o, g=np.asarray(g).tolist(), use_bias=ub)})
                         if len(fails) >= 3:
                             return {"ok": True, "evaluations": n, "failures": fails}
+        # equal channel counts, targets in non-sorted order (the layer has been through a pytree round trip)
+        for (si, so) in [([(0, 0), (1, 0)], [(1, 0), (0, 0)]), ([(1, 0)], [(1, 0), (0, 0)])]:
+            for gi, g in enumerate(ops):
+                if D == 3 and gi % 8:
+                    continue
+                d, call = one(D, si, so, combos[0][2], g, "auto", equal_channels=True)
+                n += 1
+                if d is not None:
+                    fails.append({"name": call, "detail": d, "request": dict(scenario="layer", D=D, sin=si, sout=so, opt=combos[0][2], g=np.asarray(g).tolist(), use_bias="auto", equal_channels=True)})
+                    break
         # cyclic translations on fully toroidal images
         for sh in [(1, 0, 0)[:D], (2, 1, 3)[:D]]:
             d, call = one(D, combos[0][0], combos[0][1], combos[0][2], np.eye(D), "auto", shift=sh)
